@@ -624,7 +624,7 @@ def first_code_line(text):
     return ''
 
 
-def weave(fn, sc, log, lost):
+def weave(fn, sc, log, lost, unit_rewrites=()):
     """fn: dict from Crate.find_fn; sc: Sidecar.  Returns list of text lines (Verus)."""
     btoks = strip_attrs(fn['body'], log)
     # D2: `#[async_recursion]` wraps the body in `Box::pin(async move { BODY })`
@@ -636,6 +636,9 @@ def weave(fn, sc, log, lost):
     nodes = build_tree(lines)
     rules = list(GLOBAL_RULES)
     apply_text_rules(nodes, rules, log)
+    for pat, rep, rid in unit_rewrites:
+        apply_text_rules(nodes, [(rid, pat, rep)], log)
+    nodes = [n for n in nodes if n.text.strip() != '']
     for pat, rep, rid in sc.rewrites:
         before = dict(log.counts)
         apply_text_rules(nodes, [(rid, pat, rep)], log)
